@@ -1,11 +1,16 @@
-import SigModel.Driver.Loop
+import SigModel.Driver.HubCommon
 
-/-! Driver for C19 — stub (no model yet). -/
+/-! Driver for C19: the shared hub model (`Model/Hub.lean`) with this property's judge. -/
 namespace SigModel.Driver.C19
+open SigModel.Proto SigModel.Hub SigModel.Driver.HubCommon
 
-structure St where
-  dummy : Unit := ()
+abbrev St := HubCommon.St
 
-def step (st : St) (_op _impl : List String) : St × String × String := (st, "bad-op", "na")
+def step (st : St) (op impl : List String) : St × String × String :=
+  stepWith (fun st pre op impl => match judgeC19 st pre op impl with
+    | "na" => (match op with
+      | .message .. => judgeC05 pre op impl
+      | _ => verdictOf ((judgeTables impl).filter (fun e => hasPrefix "residue:vt" e || hasPrefix "residue:ch" e)))
+    | v => v) st op impl
 
 end SigModel.Driver.C19
